@@ -13,6 +13,7 @@ Overlay syntax (lines starting with `//@`):
        //@ loop <k> [iter=<name>]   invariant/decreases text placed in the header of loop k (source order)
        //@ loop_begin <k>      text placed at the first statement position of loop k's body
        //@ loop_end <k>        text placed after the last statement of loop k's body
+       //@ annot <name>        (next line: a type) adds `: T` to `let [mut] <name> = ..`
        //@ after_let <name>    text placed immediately after the statement `let [mut] <name> ...;`
        //@ before <k>          text placed immediately before loop k's statement
        //@ after <k>           text placed immediately after loop k
@@ -43,6 +44,8 @@ RULES = {
     "R3": "`for (i, b) in X.iter_mut().enumerate() { *b .. }` / `for b in X.iter_mut()` -> index loop with X[i]",
     "R4": "`for i in (a..b).rev() {` -> descending while loop",
     "R5": "consuming map iteration `for (k, v) in M {` -> `for (k__r, v__r) in M.iter() { let k = *k__r; let v = *v__r;` (M dead afterwards; value type made Copy in the assembled file, so the copy equals the moved value)",
+    "R6": "`format!(..)` -> call of an overlay-declared stub `fmt__K(args)` (uninterpreted result unless stated and discharged by enumeration)",
+    "R20": "`for b in S.bytes() {` -> `for b__r in S.as_bytes().iter() { let b = *b__r;` (definition of str::bytes)",
     "R7": "error-constructor expression `ParseError::X {..}` -> opaque `mk_err()`",
     "R15": "`E.and_then(|row| row.get(I)).unwrap_or(&0)` -> stub `get_or_zero(E, I)`",
     "R17": "`E.parse::<T>()` -> stub `parse_T(E)` with an unconstrained result",
@@ -173,6 +176,35 @@ def apply_common_rules(text, ed, rules, log, where):
                 else:
                     ed.replace(toks[p2].start, toks[n1].end, f"{pre}_{toks[p2].text}_arr(")
                 log.append(("R14", where, text[toks[p2].start:toks[e].end][:80]))
+    if "R6" in rules:
+        # format!(LIT, args..) -> fmt__K(captured.., args..): an overlay-declared stub whose result is an uninterpreted
+        # (or Ec-discharged) function of the argument values
+        kf = 0
+        i = 0
+        while i < len(toks):
+            t = toks[i]
+            if t.kind == "ident" and t.text == "format":
+                j = next_code(toks, i)
+                k = next_code(toks, j) if j is not None else None
+                if j is not None and toks[j].text == "!" and k is not None and toks[k].text == "(":
+                    e = match_forward(toks, k)
+                    lit = next_code(toks, k)
+                    if toks[lit].kind != "str":
+                        raise ExtractError(f"unsupported-construct: {where}: format! without a literal")
+                    caps = []
+                    for m in re.finditer(r"\{\{|\}\}|\{([A-Za-z_][A-Za-z0-9_]*)?(:[^}]*)?\}", toks[lit].text):
+                        if m.group(0) in ("{{", "}}"): continue
+                        if m.group(1): caps.append(m.group(1))
+                    rest = text[toks[lit].end:toks[e].start].strip()
+                    if rest.startswith(","): rest = rest[1:].strip()
+                    args = ", ".join([c for c in caps] + ([rest] if rest else []))
+                    names_ = _CUR_OPTS.get("fmts", "").split(",") if _CUR_OPTS.get("fmts") else []
+                    nm_ = names_[kf] if kf < len(names_) and names_[kf] else f"fmt__{kf}"
+                    ed.replace(t.start, toks[e].end, f"{nm_}({args})")
+                    log.append(("R6", where, f"{nm_} <- " + text[t.start:toks[e].end][:90].replace("\n", " ")))
+                    kf += 1
+                    i = e + 1; continue
+            i += 1
     if "R15" in rules:
         # `E.and_then(|row| row.get(IDX)).unwrap_or(&0)` -> `get_or_zero(E, IDX)`; a leading `*` deref is kept
         for m in re.finditer(r"(\w+)\s*\.and_then\(\|(\w+)\|\s*\2\.get\(([^()]+)\)\)\s*\.unwrap_or\(&0\)", text):
@@ -216,7 +248,7 @@ def apply_common_rules(text, ed, rules, log, where):
             if t.kind == "str" and t.text.startswith('b"'):
                 bs = _decode_bytestr(t.text)
                 # &[..] only when used as a slice value; literal is `&'static [u8; N]` so `&[..]` keeps the type shape
-                ed.replace(t.start, t.end, "&[" + ", ".join(f"0x{b:02X}u8" for b in bs) + "]")
+                ed.replace(t.start, t.end, "(&[" + ", ".join(f"0x{b:02X}u8" for b in bs) + "])")
                 log.append(("R10", where, t.text))
 
 
@@ -407,7 +439,7 @@ def parse_opts(words):
     for w in words:
         if "=" in w and not w.startswith("="):
             k, v = w.split("=", 1); opts[k] = v
-        elif w in ("opt", "novac"): opts[w] = "1"
+        elif w in ("opt", "novac", "noterm"): opts[w] = "1"
         else: pos.append(w)
     return pos, opts
 
@@ -515,8 +547,13 @@ def _strip_vis_attrs(text, ed, log, where, keep_pub=False):
         i += 1
 
 
+_CUR_OPTS = {}
+
+
 def build_item(cur, log):
+    global _CUR_OPTS
     kind, pos, opts = cur["kind"], cur["pos"], cur["opts"]
+    _CUR_OPTS = opts
     sf = source(pos[0])
     rules = set(opts.get("rules", "").split(",")) - {""}
     secs = cur["sections"]
@@ -651,6 +688,54 @@ def build_item(cur, log):
                     ed.insert(toks[last].end, ".iter()")
                 ed.insert(toks[lo_].end, f" let {v} = *{v}__r;")
                 log.append(("R1", where, text[toks[lk].start:toks[lo_].end]))
+    if "R20" in rules:
+        for (lk, lo_, lc_) in loops:
+            if toks[lk].text != "for": continue
+            a1 = next_code(toks, lk); a2 = next_code(toks, a1)
+            if toks[a1].kind != "ident" or toks[a2].text != "in": continue
+            last = prev_code(toks, lo_)
+            expr = text[toks[a2].end:toks[last].end].strip()
+            if not expr.endswith(".bytes()"): continue
+            v = toks[a1].text
+            ed.replace(toks[a1].start, toks[a1].end, v + "__r")
+            # `.bytes()` -> `.as_bytes().iter()`
+            b3 = last; b2 = prev_code(toks, b3); b1 = prev_code(toks, b2)
+            ed.replace(toks[b1].start, toks[b3].end, "as_bytes().iter()")
+            ed.insert(toks[lo_].end, f" let {v} = *{v}__r;")
+            log.append(("R20", where, text[toks[lk].start:toks[lo_].end]))
+    if "R2" in rules:
+        # `for (A, B, ..) in &X[lo..=hi] {` -> inclusive index loop with field borrows (`_` components skipped)
+        for n_, (lk, lo_, lc_) in enumerate(loops):
+            if toks[lk].text != "for": continue
+            hdr = text[toks[lk].start:toks[lo_].start]
+            m = re.match(r"for\s+\(([^)]*)\)\s+in\s+&(\w+)\[(.+?)\.\.=(.+?)\]\s*$", hdr, re.S)
+            m3 = re.match(r"for\s+\(([^)]*)\)\s+in\s+&([\w\.]+)\s*$", hdr, re.S)
+            if m:
+                names = [x.strip() for x in m.group(1).split(",")]
+                xe, lo_e, hi_e = m.group(2), m.group(3).strip(), m.group(4).strip()
+            elif m3 and "&" not in m3.group(1):
+                names = [x.strip() for x in m3.group(1).split(",")]
+                xe = m3.group(2)
+                if any(x.kind == "ident" and x.text == "continue" for x in toks[lo_:lc_]):
+                    raise ExtractError(f"unsupported-construct: {where}: `continue` inside a loop rewritten by R2")
+                kv = f"k__{n_}"
+                last = prev_code(toks, lo_)
+                ed.replace(toks[lk].start, toks[last].end, f"let mut {kv}: usize = 0; while {kv} < {xe}.len()")
+                lets = "".join(f" let {nm} = &{xe}[{kv}].{ix};" for ix, nm in enumerate(names) if nm != "_")
+                ed.insert(toks[lo_].end, lets)
+                ed.insert(toks[lc_].start, f" {kv} += 1; ")
+                log.append(("R2", where, hdr.strip()))
+                continue
+            else: continue
+            if any(x.kind == "ident" and x.text == "continue" for x in toks[lo_:lc_]):
+                raise ExtractError(f"unsupported-construct: {where}: `continue` inside a loop rewritten by R2")
+            kv = f"k__{n_}"
+            last = prev_code(toks, lo_)
+            ed.replace(toks[lk].start, toks[last].end, f"let mut {kv}: usize = {lo_e}; while {kv} <= {hi_e}")
+            lets = "".join(f" let {nm} = &{xe}[{kv}].{ix};" for ix, nm in enumerate(names) if nm != "_")
+            ed.insert(toks[lo_].end, lets)
+            ed.insert(toks[lc_].start, f" {kv} += 1; ")
+            log.append(("R2", where, hdr.strip()))
     if "R5" in rules:
         # consuming iteration over a map: `for (k, v) in M {` -> `for (k__r, v__r) in M.iter() { let k = *k__r; let v = *v__r;`
         for n_, (lk, lo_, lc_) in enumerate(loops):
@@ -778,6 +863,24 @@ def build_item(cur, log):
                 ed.insert(toks[lc_].start, "\n" + x.text + "\n")
             else:
                 ed.insert(toks[lc_].end, "\n" + x.text + "\n")
+        elif x.kind == "annot":
+            # type annotation on `let [mut] NAME =` (the invariant mentions NAME before rustc can infer its type)
+            nm = x.arg
+            ty = x.text.strip() or " ".join(x.opts.get("ty", "").split())
+            done_ = False
+            q = k_body + 1
+            while q < k_close:
+                if toks[q].kind == "ident" and toks[q].text == "let":
+                    n1 = next_code(toks, q)
+                    if toks[n1].text == "mut": n1 = next_code(toks, n1)
+                    n2 = next_code(toks, n1)
+                    if toks[n1].kind == "ident" and toks[n1].text == nm and toks[n2].text == "=":
+                        ed.insert(toks[n1].end, ": " + ty)
+                        log.append(("annot", where, f"let {nm}: {ty}"))
+                        done_ = True; break
+                q += 1
+            if not done_ and not x.opts.get("opt"):
+                raise ExtractError(f"lost-anchor: {where}: `let {nm} =` not found for annotation")
         elif x.kind == "after_let":
             # immediately after the statement `let [mut] NAME ... ;` (first declaration of NAME in the body)
             nm = x.arg
@@ -820,6 +923,11 @@ def build_item(cur, log):
                  line=sf.line_of(sf.toks[kw].start), kind=kind,
                  has_requires=bool(re.search(r"\brequires\b", sig_txt)))
     # vacuity sibling
+    if opts.get("noterm"):
+        # termination of this (mutually) recursive exec function is NOT proved; recorded as an assumption
+        pre_ = "#[verifier::exec_allows_no_decreases_clause]\n"
+        t, offs = pre_ + t, [None] * len(pre_) + offs
+        log.append(("noterm", where, "termination not proved (exec_allows_no_decreases_clause)"))
     fmeta["main_lines"] = t.count("\n") + 1
     if fmeta["has_requires"] and "novac" not in pos and "novac" not in opts:
         rendered_sig, _ = _render_sig_only(text, toks, k_name, k_body, opts, sig_txt, has_ret)
